@@ -47,7 +47,8 @@ def random_schema(draw, backend: str, tag: str = "r"):
                 ms.append(M(f"many{i}{j}", "objvec", cls=names[j], elem_ptr=draw(st.sampled_from([1, 0])), ptr=draw(st.sampled_from([1, 0])), declared=True,
                             deref=draw(st.sampled_from([0, 1, 0]))))
         if _yes(draw, 2, 3):
-            ms.append(M(f"v{i}", "vec", draw(st.sampled_from(["float", "int", "double"])), ptr=draw(st.sampled_from([1, 0])), declared=True, deref=draw(st.sampled_from([0, 1, 0]))))
+            ms.append(M(f"v{i}", "vec", draw(st.sampled_from(["float", "int", "double"])), ptr=draw(st.sampled_from([1, 0])), declared=True, deref=draw(st.sampled_from([0, 1, 0])),
+                        const_decl=False))  # (const std::vector<T> declarations: reported by two hunters, not taken up - see DESIGN 6.2 - and not generated)
         classes[cname] = C(cname, ms)
     elem_ptr = backend == "atlas"
     coll = Coll("Things", f"{ns}::K0Container", names[0], (f"{ns}/K0Container.h",), ("MyNsLib",) if backend == "atlas" else (), elem_ptr=elem_ptr, builtin=False,
